@@ -791,3 +791,126 @@ Proof.
     unfold out_name in En. rewrite (O1 eq_refl), (O2 eq_refl), I1, I2 in En.
     apply Ne. rewrite I1, I2. destruct (e_id y1), (e_id y2); simpl in *; congruence.
 Qed.
+
+(* ================================================================================================================ *)
+(* RegisterManifests (cmd/json.go): input types of all manifests first, dependency copies afterwards - the owner wins  *)
+
+Lemma lookup_app_some reg t i e : lookup reg i = Some e -> lookup (reg ++ t) i = Some e.
+Proof.
+  induction reg as [|x r IH]; simpl; [discriminate|]. destruct (ident_eqb (e_id x) i); [auto|apply IH].
+Qed.
+Lemma lookup_app_none reg t i : lookup reg i = None -> lookup (reg ++ t) i = lookup t i.
+Proof.
+  induction reg as [|x r IH]; simpl; [reflexivity|]. destruct (ident_eqb (e_id x) i); [discriminate|apply IH].
+Qed.
+
+Lemma register_inv reg t reg' : register reg t = Ok reg' -> reg' = reg ++ [t] /\ lookup reg (e_id t) = None.
+Proof. unfold register. destruct (lookup reg (e_id t)); [discriminate|]. intros H; injection H as <-. auto. Qed.
+
+Lemma register_fresh reg t : lookup reg (e_id t) = None -> register reg t = Ok (reg ++ [t]).
+Proof. unfold register. intros ->. reflexivity. Qed.
+
+Lemma register_all_keeps ts : forall reg reg' i e,
+  register_all reg ts = Ok reg' -> lookup reg i = Some e -> lookup reg' i = Some e.
+Proof.
+  induction ts as [|t r IH]; intros reg reg' i e H L; simpl in H.
+  - injection H as <-. exact L.
+  - destruct (register reg t) as [reg1| | |] eqn:R; simpl in H; try discriminate.
+    destruct (register_inv _ _ _ R) as [-> _]. eapply IH; [exact H|]. apply lookup_app_some. exact L.
+Qed.
+
+(* every type of the first pass is filed exactly as its manifest declared it *)
+Lemma register_all_finds ts : forall reg reg' t,
+  register_all reg ts = Ok reg' -> In t ts -> lookup reg' (e_id t) = Some t.
+Proof.
+  induction ts as [|x r IH]; intros reg reg' t H Hin; simpl in H; [destruct Hin|].
+  destruct (register reg x) as [reg1| | |] eqn:R; simpl in H; try discriminate.
+  destruct (register_inv _ _ _ R) as [-> N]. destruct Hin as [->|Hin].
+  - eapply register_all_keeps; [exact H|]. rewrite lookup_app_none by exact N. simpl. rewrite ident_eqb_refl. reflexivity.
+  - eapply IH; eauto.
+Qed.
+
+Lemma register_lenient_keeps reg t i e : lookup reg i = Some e -> lookup (register_lenient reg t) i = Some e.
+Proof.
+  intros L. unfold register_lenient, register. destruct (lookup reg (e_id t)); [exact L|]. apply lookup_app_some. exact L.
+Qed.
+Lemma fold_lenient_keeps ts : forall reg i e,
+  lookup reg i = Some e -> lookup (fold_left register_lenient ts reg) i = Some e.
+Proof. induction ts as [|t r IH]; intros reg i e L; simpl; [exact L|]. apply IH. apply register_lenient_keeps. exact L. Qed.
+
+Lemma register_all_total ts : forall reg,
+  NoDup (map e_id (reg ++ ts)) -> (forall e, In e reg -> lookup reg (e_id e) <> None) ->
+  exists reg', register_all reg ts = Ok reg'.
+Proof.
+  induction ts as [|t r IH]; intros reg ND _; simpl; [eauto|].
+  assert (N : lookup reg (e_id t) = None).
+  { destruct (lookup reg (e_id t)) as [u|] eqn:L; [|reflexivity]. exfalso.
+    destruct (lookup_In _ _ _ L) as [Hin E]. rewrite map_app in ND. simpl in ND.
+    apply NoDup_remove_2 in ND. apply ND. apply in_or_app. left. rewrite <- E. apply in_map. exact Hin. }
+  rewrite (register_fresh _ _ N). simpl. apply IH.
+  - rewrite <- app_assoc. exact ND.
+  - intros e He. destruct (In_lookup _ _ He) as [u ->]. discriminate.
+Qed.
+
+Lemma In_input_entries ms m d : In m ms -> In d (m_inputs m) -> In (entry_of (m_root m) d) (input_entries ms).
+Proof. intros Hm Hd. unfold input_entries. apply in_flat_map. exists m. split; [exact Hm|]. apply in_map. exact Hd. Qed.
+
+(* the owner wins: whatever else the manifests carry as dependency copies, and in whatever order the manifests were
+   read, an input type ends up under the package root of the manifest that owns it, with the references that manifest
+   declared *)
+Theorem owner_wins : forall init ms reg m d,
+  register_inputs_then_deps init ms = Ok reg -> In m ms -> In d (m_inputs m) ->
+  lookup reg (d_id d) = Some (entry_of (m_root m) d).
+Proof.
+  intros init ms reg m d H Hm Hd. unfold register_inputs_then_deps in H.
+  destruct (register_all init (input_entries ms)) as [reg1| | |] eqn:R; simpl in H; try discriminate.
+  injection H as <-. apply fold_lenient_keeps.
+  apply (register_all_finds _ _ _ _ R (In_input_entries ms m d Hm Hd)).
+Qed.
+
+(* registration is total as soon as no two manifests own the same type (and none owns a native type) *)
+Theorem registration_total : forall init ms,
+  NoDup (map e_id (init ++ input_entries ms)) -> exists reg, register_inputs_then_deps init ms = Ok reg.
+Proof.
+  intros init ms ND. unfold register_inputs_then_deps.
+  destruct (register_all_total (input_entries ms) init ND) as [reg1 ->].
+  - intros e He. destruct (In_lookup _ _ He) as [u ->]. discriminate.
+  - simpl. eauto.
+Qed.
+
+Lemma input_entries_perm ms ms' : Permutation ms ms' -> Permutation (input_entries ms) (input_entries ms').
+Proof.
+  unfold input_entries. induction 1; simpl.
+  - constructor.
+  - apply Permutation_app_head. assumption.
+  - rewrite !app_assoc. apply Permutation_app_tail. apply Permutation_app_comm.
+  - etransitivity; eassumption.
+Qed.
+
+(* ... and then the order in which the manifests were read does not matter for any owned type *)
+Theorem registration_order_independent : forall init ms ms',
+  NoDup (map e_id (init ++ input_entries ms)) -> Permutation ms ms' ->
+  exists reg reg',
+    register_inputs_then_deps init ms = Ok reg /\ register_inputs_then_deps init ms' = Ok reg' /\
+    forall m d, In m ms -> In d (m_inputs m) ->
+      lookup reg (d_id d) = Some (entry_of (m_root m) d) /\ lookup reg' (d_id d) = Some (entry_of (m_root m) d).
+Proof.
+  intros init ms ms' ND P.
+  assert (ND' : NoDup (map e_id (init ++ input_entries ms'))).
+  { eapply Permutation_NoDup; [|exact ND]. apply Permutation_map. apply Permutation_app_head. apply input_entries_perm. exact P. }
+  destruct (registration_total init ms ND) as [reg R]. destruct (registration_total init ms' ND') as [reg' R'].
+  exists reg, reg'. split; [exact R|]. split; [exact R'|]. intros m d Hm Hd. split.
+  - eapply owner_wins; eauto.
+  - eapply owner_wins; eauto. eapply Permutation_in; eauto.
+Qed.
+
+(* a witness: beta owns Money, alpha carries a copy of it and is read FIRST - Money is still filed under beta's root *)
+Example owner_wins_nonvacuous :
+  let money := mkId [x4d] [x62] in let cart := mkId [x43] [x61] in
+  let alpha := mkManifest [x41] [mkDecl cart [money]] [mkDecl money []] in
+  let beta := mkManifest [x42] [mkDecl money []] [] in
+  match register_inputs_then_deps [] [alpha; beta] with
+  | Ok reg => option_map e_root (lookup reg money) = Some [x42] /\ option_map e_root (lookup reg cart) = Some [x41]
+  | _ => False
+  end.
+Proof. vm_compute. split; reflexivity. Qed.
